@@ -105,6 +105,11 @@ func checkC10(c *c10Case) (msg string, nontrivial bool, labels []string) {
 	if mustFail {
 		return "", nontrivial, append(labels, "must-fail")
 	}
+	if m, l := c10ChunkLeg(c, approx); m != "" {
+		return m, nontrivial, labels
+	} else if l != "" {
+		labels = append(labels, l)
+	}
 	// WHERE leg: the value compared with its literal selects the pair
 	var w *lib.Node
 	switch x := want.(type) {
@@ -155,6 +160,79 @@ func checkC10(c *c10Case) (msg string, nontrivial bool, labels []string) {
 		labels = append(labels, "where-leg")
 	}
 	return "", nontrivial, labels
+}
+
+// c10ChunkLeg: the pair among neighbours. The batch form of a function works
+// on a whole chunk of pairs: the value it gives for one pair must not depend
+// on the pairs around it, nor on whether the arguments are written out or
+// reached through the names of other select fields. Neighbours are variations
+// of the pair on which the reference defines the expression too.
+func c10ChunkLeg(c *c10Case, approx bool) (msg, label string) {
+	rot := c.V
+	if len(rot) > 1 {
+		rot = c.V[1:] + c.V[:1]
+	}
+	cand := []lib.Pair{{K: "!" + c.K, V: rot}, {K: c.K, V: c.V}, {K: c.K + "0", V: c.V + "1"}, {K: c.K + "1", V: c.V}}
+	var pairs []lib.Pair
+	var want []any
+	for _, p := range lib.NewStore(cand).Pairs() { // in key order, as the scan returns them
+		w, err := lib.Eval(c.E, &lib.Env{K: p.K, V: p.V})
+		if err != nil {
+			continue
+		}
+		pairs = append(pairs, p)
+		want = append(want, w)
+	}
+	if len(pairs) < 2 {
+		return "", ""
+	}
+	named := c.E.Clone()
+	var subst func(n *lib.Node) *lib.Node
+	subst = func(n *lib.Node) *lib.Node {
+		switch n.K {
+		case "key":
+			return lib.Ref("k1", lib.TyText)
+		case "value":
+			return lib.Ref("v1", lib.TyText)
+		}
+		for i, a := range n.A {
+			n.A[i] = subst(a)
+		}
+		return n
+	}
+	named = subst(named)
+	where := lib.Bin("=", lib.Int(1), lib.Int(1))
+	stmts := []*lib.Stmt{
+		{Kind: "select", Fields: []lib.SelField{{E: c.E}}, Where: where},
+		{Kind: "select", Fields: []lib.SelField{{E: lib.Value(), Alias: "v1"}, {E: lib.Key(), Alias: "k1"}, {E: named}}, Where: where},
+	}
+	for si, st := range stmts {
+		q := st.Render()
+		for _, cfg := range []lib.Cfg{{Mode: "batch", Batch: 32, Cache: true}, {Mode: "batch", Batch: 2, Cache: false}, {Mode: "row", Batch: 32, Cache: true}} {
+			res := lib.Run(q, lib.NewStore(pairs), len(pairs), cfg)
+			if res.Failed() {
+				return fmt.Sprintf("query %q over %v [%s]: %s (the reference defines the value on every pair)", q, pairs, cfg, res.Describe()), ""
+			}
+			if len(res.Rows) != len(pairs) {
+				return fmt.Sprintf("query %q over %v [%s]: expected %d rows, got %s", q, pairs, cfg, len(pairs), lib.ShowRows(res.Rows)), ""
+			}
+			for i, r := range res.Rows {
+				got := r[len(r)-1]
+				ok := lib.EqualVal(want[i], got)
+				if approx {
+					ok = lib.ApproxEqualVal(want[i], got, 1e-12)
+				}
+				if !ok {
+					how := "written out"
+					if si == 1 {
+						how = "with key and value reached through names"
+					}
+					return fmt.Sprintf("query %q over %v [%s] (%s): row %d should be %s, engine returns %s", q, pairs, cfg, how, i, lib.Show(want[i]), lib.Show(got)), ""
+				}
+			}
+		}
+	}
+	return "", fmt.Sprintf("chunk-of-%d", len(pairs))
 }
 
 func c10Run(t lib.Fataler, c *c10Case, enum bool) {
